@@ -323,7 +323,10 @@ fn build_type(
                         name,
                         type_.to_token_stream()
                     );
-                    for ident_path in implementations {
+                    // every path gets a note of its own, so the notes must not each repeat an
+                    // unbounded list of all the others
+                    const MAX_LISTED: usize = 16;
+                    for ident_path in implementations.iter().take(MAX_LISTED) {
                         conflicting_impl_message.push_str("  - `");
                         conflicting_impl_message.push_str(
                             &ident_path
@@ -333,6 +336,12 @@ fn build_type(
                                 .join("."),
                         );
                         conflicting_impl_message.push_str("`\n");
+                    }
+                    if implementations.len() > MAX_LISTED {
+                        conflicting_impl_message.push_str(&format!(
+                            "  - ... and {} more\n",
+                            implementations.len() - MAX_LISTED
+                        ));
                     }
                     let conflicting_impl_doc = doc_to_tokens(false, Some(conflicting_impl_message.trim()));
                     let conflicting_impl_ident = quote::format_ident!(
